@@ -9,6 +9,7 @@ def harnesses(tier):
         H('rbx_types', 'k13_axes_bits', 'K13.axes', 'Axes::from_bits likewise', 'all 256 bytes', functions=['Axes::from_bits', 'Axes::bits', 'Axes::contains']),
         H('rbx_types', 'k13_brickcolor_number', 'K13.brickcolor', 'BrickColor::from_number(n) as u16 = n', 'all 65536 numbers', functions=['BrickColor::from_number']),
         H('rbx_types', 'k13_brickcolor_variants', 'K13.brickcolor.complete', 'every BrickColor variant v: from_number(v as u16) = Some(v)', 'all variants of the enum (list regenerated from the make_brick_color! invocation)', functions=['BrickColor::from_number']),
+        H('rbx_types', 'k13_brickcolor_palette', 'K13.brickcolor.palette', 'every BrickColor variant: to_color3uint8 = the colour of its own row', 'all variants', functions=['BrickColor::to_color3uint8']),
         H('rbx_types', 'k13_font_weight_style', 'K13.font', 'FontWeight::from_u16/as_u16 and FontStyle::from_u8/as_u8 are inverse', 'all u16 / u8', functions=['FontWeight::from_u16', 'FontWeight::as_u16', 'FontStyle::from_u8', 'FontStyle::as_u8']),
         H('rbx_types', 'k13_security_capabilities_bits', 'K13.seccap', 'SecurityCapabilities bits identity', 'all u64', functions=['SecurityCapabilities::from_bits', 'SecurityCapabilities::bits']),
         H('rbx_types', 'k14_uniqueid_parse_of_printed_form', 'K14.uniqueid', 'UniqueId::from_str accepts its own text form and returns the same fields', 'all (u32,u32,i64); harness-side hex printer (trusted, validated natively)', timeout=1500,
